@@ -96,9 +96,9 @@ Section Wf.
   Qed.
 
   (* every value of an accepted type that is not an interface type is written as one well formed literal *)
-  Theorem show_val_printed : forall n, P L f printed n.
+  Theorem show_val_printed : forall n, P L f (fun _ _ _ r => printed r) n.
   Proof.
-    apply show_val_good.
+    apply show_val_plain.
     - apply (printed_ok JNull). reflexivity.
     - intro b. destruct b; [apply (printed_ok (JBool true)) | apply (printed_ok (JBool false))]; reflexivity.
     - intro z. apply (printed_ok (JNum (dec_of_Z z))). apply dec_of_Z_number.
